@@ -35,7 +35,7 @@ def tag_protocol(ctx):
                         (dotted(n.func) or '').endswith('gen_code_for_node'):
                     exprs += 1
             if isinstance(st, ast.AugAssign) and \
-                    dotted(st.target) == 'nargs':
+                    isinstance(st.target, ast.Name):
                 incr += const(st.value, 0)
         if tags or exprs or incr:
             groups.append((cond, tags, exprs, incr))
@@ -48,7 +48,7 @@ def tag_protocol(ctx):
     collect(g.node.body, 'top')
     emitted = {}
     for cond, tags, exprs, incr in groups:
-        if len(tags) == 1 and 'nargs' not in cond:
+        if len(tags) == 1:
             emitted[tags[0]] = (exprs, incr, cond)
     construct = f'{g.file}:gen_print_stmt'
     ctx.instance(rule, construct, sample={'groups': groups})
@@ -69,7 +69,8 @@ def tag_protocol(ctx):
     sep = {}
     for n in ast.walk(g.node):
         if isinstance(n, ast.If) and isinstance(n.test, ast.Compare) and \
-                dotted(n.test.left) == 'item.sep':
+                isinstance(n.test.left, ast.Attribute) and \
+                n.test.left.attr == 'sep':
             tg = [const(t.elts[1]) for s in n.body for t in ast.walk(s)
                   if isinstance(t, ast.Tuple) and t.elts and
                   const(t.elts[0]) == 'push%']
@@ -80,13 +81,13 @@ def tag_protocol(ctx):
                     f'separator tags are {sep}; expected ";"->1, ","->2',
                     g.file, g.line)
     # count pushed last, then io terminal,print
-    es = [e for e in proto.emit_sequence(g.node.body)
+    es = [e for e in proto.emit_sequence(g.node.body, fn=g.node)
           if e[0] in ('push', 'io')]
     tail = es[-2:]
     ctx.instance(rule, construct + ':tail', sample={'tail': tail})
     if [t[:2] for t in tail] != [('push', 'INTEGER'),
                                  ('io', 'terminal')] or \
-            tail[0][2] != 'nargs' or tail[1][2] != 'print':
+            tail[0][2] != '<<var>>' or tail[1][2] != 'print':
         ctx.finding(rule, construct + ':tail',
                     f'gen_print_stmt ends with {tail}; expected push% nargs; '
                     f'io terminal,print', g.file, g.line)
@@ -100,9 +101,17 @@ def tag_protocol(ctx):
             break
     if loop is None:
         raise AnalysisError('anchor vanished: tag loop in _exec_print')
+    tagvar = proto.int_dispatch_var(loop)
+    ivar = None
+    if isinstance(loop.test, ast.Compare) and \
+            isinstance(loop.test.left, ast.Name):
+        ivar = loop.test.left.id
+    if tagvar is None or ivar is None:
+        raise AnalysisError('anchor vanished: tag/index variables of the '
+                            'tag loop')
     for n in ast.walk(loop):
         if isinstance(n, ast.If) and isinstance(n.test, ast.Compare) and \
-                dotted(n.test.left) == 'arg' and \
+                dotted(n.test.left) == tagvar and \
                 isinstance(const(n.test.comparators[0]), int):
             step = None
             uses_next = False
@@ -110,17 +119,24 @@ def tag_protocol(ctx):
             for s in n.body:
                 for m in ast.walk(s):
                     if isinstance(m, ast.AugAssign) and \
-                            dotted(m.target) == 'i':
+                            dotted(m.target) == ivar:
                         step = const(m.value)
                     if isinstance(m, ast.Subscript) and \
-                            unparse(m.slice).replace(' ', '') == 'i+1':
+                            unparse(m.slice).replace(' ', '') == \
+                            f'{ivar}+1':
                         uses_next = True
                     if isinstance(m, ast.Call) and \
-                            (dotted(m.func) or '') == 'printables.append':
-                        target = unparse(m.args[0])
+                            isinstance(m.func, ast.Attribute) and \
+                            m.func.attr == 'append' and m.args:
+                        a0 = m.args[0]
+                        target = ('next-cell' if isinstance(
+                            a0, ast.Subscript) else
+                            ('sentinel:' + a0.id if isinstance(
+                                a0, ast.Name) else unparse(a0)))
                     if isinstance(m, ast.Assign) and \
-                            dotted(m.targets[0]) == 'format_string':
-                        target = 'format_string'
+                            isinstance(m.targets[0], ast.Name) and \
+                            isinstance(m.value, ast.Subscript):
+                        target = 'format:' + m.targets[0].id
             handled[const(n.test.comparators[0])] = (step, uses_next, target)
     c3 = f'{f.file}:TerminalDevice._exec_print:tags'
     ctx.instance(rule, c3, sample={'handled': handled})
@@ -139,23 +155,46 @@ def tag_protocol(ctx):
         if tag not in want_c:
             ctx.observe(f'_exec_print handles tag {tag} that the generator '
                         f'never emits')
-    # what each tag means on the consumer side
+    # what each tag means on the consumer side: tag 0 appends the next
+    # cell, tag 3 binds the format string, tags 1/2 append two distinct
+    # sentinels, of which the one for tag 2 (comma) is the one the layout
+    # loop pads on and the one for tag 1 (semicolon) adds nothing
     meaning = {k: v[2] for k, v in handled.items()}
     ctx.instance(rule, c3 + ':meaning', sample=meaning)
-    if meaning.get(1) != 'semicolon' or meaning.get(2) != 'comma' or \
-            meaning.get(3) != 'format_string' or \
-            'args[i + 1]' not in (meaning.get(0) or ''):
+    s1 = (meaning.get(1) or '')
+    s2 = (meaning.get(2) or '')
+    pad_on = None
+    nothing_on = None
+    for n in ast.walk(f.node):
+        if isinstance(n, ast.If) and isinstance(n.test, ast.Compare) and \
+                isinstance(n.test.ops[0], ast.Eq) and \
+                isinstance(n.test.comparators[0], ast.Name):
+            sent = 'sentinel:' + n.test.comparators[0].id
+            if any(isinstance(x, ast.BinOp) and isinstance(x.op, ast.Mod)
+                   for s_ in n.body for x in ast.walk(s_)):
+                pad_on = sent
+            elif len(n.body) == 1 and isinstance(n.body[0], ast.Pass):
+                nothing_on = sent
+    ok = meaning.get(0) == 'next-cell' and \
+        (meaning.get(3) or '').startswith('format:') and \
+        s1.startswith('sentinel:') and s2.startswith('sentinel:') and \
+        s1 != s2 and pad_on == s2 and nothing_on == s1
+    if not ok:
         ctx.finding(rule, c3 + ':meaning',
-                    f'tag meanings on the device side are {meaning}',
-                    f.file, f.line)
+                    f'tag meanings on the device side are {meaning}; layout '
+                    f'pads on {pad_on} and adds nothing on {nothing_on}: '
+                    f'expected 0 -> next cell, 3 -> format string, 1 -> the '
+                    f'sentinel that adds nothing (semicolon), 2 -> the '
+                    f'sentinel that pads (comma)', f.file, f.line)
     # nargs popped first as INTEGER, then nargs untyped cells, reversed
-    ps = proto.pop_sequence(f.node.body)
+    ps = proto.pop_sequence(f.node.body, fn=f.node)
     ctx.instance(rule, c3 + ':pops', sample={'pops': ps[:3]})
     ok = len(ps) >= 2 and ps[0][:2] == ('pop', 'INTEGER') and \
-        ps[1][0] == 'loop' and ps[1][1] == 'range(nargs)' and \
+        ps[1][0] == 'loop' and ps[1][1].startswith('range(<<') and \
+        'CellType.INTEGER' in ps[1][1] and \
         [p[:2] for p in ps[1][2]] == [('pop', None)]
-    rev = any(isinstance(c, ast.Call) and dotted(c.func) == 'args.reverse'
-              for c in ast.walk(f.node))
+    rev = any(isinstance(c, ast.Call) and isinstance(c.func, ast.Attribute)
+              and c.func.attr == 'reverse' for c in ast.walk(f.node))
     if not ok or not rev:
         ctx.finding(rule, c3 + ':pops',
                     f'_exec_print pops {ps[:2]} (reversed afterwards: {rev}); '
@@ -214,18 +253,18 @@ def line_end_guards(ctx, f):
                     if 'len(' in unparse(v) and \
                             unparse(n.left.value) in unparse(v):
                         guarded = True
-            sites.append((n, guarded, sorted(unparse(e) for e in
-                                             n.comparators[0].elts)))
+            sites.append((n, guarded, len(n.comparators[0].elts)))
     ctx.floor('trailing-separator tests in _exec_print', len(sites), 2)
     for n, guarded, seps in sites:
         branch = 'using' if any(
-            isinstance(a, ast.If) and unparse(a.test) == 'format_string'
-            and any(n is x for s in a.body for x in ast.walk(s))
+            isinstance(a, ast.If) and isinstance(a.test, ast.Name) and
+            any(n is x for s in a.body for x in ast.walk(s)) and
+            any('PrintUsingFormatter' in unparse(s) for s in a.body)
             for a in ast.walk(f.node)) else 'plain'
         construct = f'{f.file}:TerminalDevice._exec_print:{branch}:line-end'
         ctx.instance(rule, construct, sample={'guarded_for_empty': guarded,
                                               'separators': seps})
-        if seps != ['comma', 'semicolon']:
+        if seps != 2:
             ctx.finding(rule, construct + ':seps',
                         f'{branch} branch tests the last printable against '
                         f'{seps}', f.file, n.lineno)
@@ -256,7 +295,8 @@ def line_end_guards(ctx, f):
         w1, w2 = const(z.left), const(z.right.right)
         ctx.instance(rule2, f'{f.file}:TerminalDevice._exec_print:zone',
                      sample={'expr': unparse(z)})
-        if w1 != w2 or w1 != 14 or 'len(buf)' != unparse(z.right.left):
+        if w1 != w2 or w1 != 14 or not unparse(z.right.left).startswith(
+                'len('):
             ctx.finding(rule2, f'{f.file}:TerminalDevice._exec_print:zone',
                         f'zone padding is {unparse(z)}; expected '
                         f'14 - len(buf) % 14', f.file, z.lineno)
